@@ -15,13 +15,15 @@ type Tape struct {
 
 // Stream identifiers.
 const (
-	StCfg   = 0 // configuration and workload shape (drawn before tasks start)
-	StSched = 1 // scheduler: who runs, whether to yield, time advances
-	StEnv   = 2 // environment: stub behaviour, select poll order, map order, network faults
+	StCfg    = 0 // configuration and workload shape (drawn before tasks start)
+	StSched  = 1 // scheduler: who runs, whether to yield, time advances
+	StEnv    = 2 // environment: stub behaviour, select poll order, map order, network faults
 	nStreams = 3
 )
 
 // NewTape returns an exploration tape for seed.
+//
+//go:norace
 func NewTape(seed int64) *Tape {
 	t := &Tape{Seed: seed, Streams: make([][]uint32, nStreams), pos: make([]int, nStreams), rng: make([]uint64, nStreams)}
 	for i := range t.rng {
@@ -31,6 +33,8 @@ func NewTape(seed int64) *Tape {
 }
 
 // ReplayTape returns a tape that replays the given streams and yields 0 past their end.
+//
+//go:norace
 func ReplayTape(seed int64, streams [][]uint32) *Tape {
 	t := &Tape{Seed: seed, Streams: make([][]uint32, nStreams), pos: make([]int, nStreams), rng: make([]uint64, nStreams), replay: true}
 	for i := range streams {
@@ -41,6 +45,7 @@ func ReplayTape(seed int64, streams [][]uint32) *Tape {
 	return t
 }
 
+//go:norace
 func splitmix(x *uint64) uint64 {
 	*x += 0x9E3779B97F4A7C15
 	z := *x
@@ -50,6 +55,8 @@ func splitmix(x *uint64) uint64 {
 }
 
 // Draw returns a value in [0,n). n<=1 consumes nothing.
+//
+//go:norace
 func (t *Tape) Draw(stream, n int) int {
 	if n <= 1 {
 		return 0
@@ -72,6 +79,8 @@ func (t *Tape) Draw(stream, n int) int {
 }
 
 // Consumed returns the consumed prefix of every stream.
+//
+//go:norace
 func (t *Tape) Consumed() [][]uint32 {
 	out := make([][]uint32, nStreams)
 	for i := range out {
@@ -85,4 +94,6 @@ func (t *Tape) Consumed() [][]uint32 {
 }
 
 // Pos returns the number of entries consumed from stream.
+//
+//go:norace
 func (t *Tape) Pos(stream int) int { return t.pos[stream] }
